@@ -961,7 +961,8 @@ func scanRoundBits(c *core.Ctx) []ob {
 	for _, f := range roots {
 		fi := fns[f]
 		nm := f.Name()
-		if !(strings.Contains(nm, "DecompositionVectorSize") || strings.Contains(nm, "VectorSize") || strings.Contains(nm, "NumDigits")) {
+		// digit counts, and the validation of the size of the moduli (61 bits is a bit length, not a rounded logarithm)
+		if !(strings.Contains(nm, "DecompositionVectorSize") || strings.Contains(nm, "VectorSize") || strings.Contains(nm, "NumDigits") || nm == "CheckModuli") {
 			continue
 		}
 		n++
@@ -1004,7 +1005,7 @@ func scanRoundBits(c *core.Ctx) []ob {
 }
 
 func init() {
-	core.Register(&core.Rule{Name: "ROUNDBITS", Props: []string{"C04", "C14", "C20"},
+	core.Register(&core.Rule{Name: "ROUNDBITS", Props: []string{"C04", "C14", "C19", "C20"},
 		Doc: "no function that computes a decomposition vector size / digit count depends (through static callees) on math.Round(math.Log2(q)): digit counts must cover the bit length of the modulus",
 		Run: func(c *core.Ctx) []ob {
 			out := scanRoundBits(c)
@@ -1467,6 +1468,153 @@ func init() {
 			out := scanSignBound(c)
 			out = append(out, core.Floor("SIGNBOUND", nil, "bound tests of big-integer draws", c.Stats["signbound_sites"], 1)...)
 			out = append(out, control(c, "SIGNBOUND", scanSignBound, "drawSigned")...)
+			return out
+		}})
+}
+
+// ---- PEEKRETAIN
+//
+// The bytes returned by Peek (bufio.Reader, buffer.Reader) are a window into the reader's internal buffer: they "stop
+// being valid at the next read call". A decoder may copy out of them, convert them to integers, or hand them to a
+// function that does; it must not keep them — stored in a field, converted to an array pointer that is stored,
+// returned — because the next read overwrites what the object now points to.
+func scanPeekRetain(c *core.Ctx) []ob {
+	var out []ob
+	n := 0
+	c.FuncDecls(func(pk *packages.Package, file *ast.File, fd *ast.FuncDecl) {
+		if fd.Body == nil || fileIsTestSupport(c.Program, fd.Pos()) || inExamples(pk) {
+			return
+		}
+		info := pk.TypesInfo
+		fkey := core.FuncKey(pk, fd)
+		peeked := map[types.Object]token.Pos{}
+		ast.Inspect(fd.Body, func(x ast.Node) bool {
+			as, ok := x.(*ast.AssignStmt)
+			if !ok || len(as.Rhs) != 1 {
+				return true
+			}
+			call, ok := unparen(as.Rhs[0]).(*ast.CallExpr)
+			if !ok {
+				return true
+			}
+			sel, ok := unparen(call.Fun).(*ast.SelectorExpr)
+			if !ok || sel.Sel.Name != "Peek" || len(as.Lhs) == 0 {
+				return true
+			}
+			if id, ok := unparen(as.Lhs[0]).(*ast.Ident); ok && id.Name != "_" {
+				o := info.Defs[id]
+				if o == nil {
+					o = info.Uses[id]
+				}
+				if o != nil {
+					peeked[o] = as.Pos()
+				}
+			}
+			return true
+		})
+		if len(peeked) == 0 {
+			return
+		}
+		// a view of a peeked slice: the variable, a reslice, a conversion to an array pointer
+		var isView func(e ast.Expr) types.Object
+		isView = func(e ast.Expr) types.Object {
+			switch v := unparen(e).(type) {
+			case *ast.Ident:
+				if _, ok := peeked[info.Uses[v]]; ok {
+					return info.Uses[v]
+				}
+			case *ast.SliceExpr:
+				return isView(v.X)
+			case *ast.CallExpr:
+				if tv, ok := info.Types[v.Fun]; ok && tv.IsType() && len(v.Args) == 1 {
+					// conversion: to string copies; to []byte or *[N]byte does not
+					if b, ok := tv.Type.Underlying().(*types.Basic); ok && b.Kind() == types.String {
+						return nil
+					}
+					return isView(v.Args[0])
+				}
+			case *ast.UnaryExpr:
+				if v.Op == token.AND {
+					if ix, ok := unparen(v.X).(*ast.IndexExpr); ok {
+						return isView(ix.X)
+					}
+				}
+			}
+			return nil
+		}
+		for o, pos := range peeked {
+			n++
+			key := fmt.Sprintf("PEEKRETAIN:%s#%s", fkey, o.Name())
+			bad, badPos := "", token.NoPos
+			ast.Inspect(fd.Body, func(x ast.Node) bool {
+				if bad != "" {
+					return false
+				}
+				switch v := x.(type) {
+				case *ast.AssignStmt:
+					if len(v.Lhs) != len(v.Rhs) {
+						return true
+					}
+					for i, l := range v.Lhs {
+						if isView(v.Rhs[i]) != o {
+							continue
+						}
+						switch unparen(l).(type) {
+						case *ast.SelectorExpr, *ast.IndexExpr, *ast.StarExpr:
+							bad, badPos = fmt.Sprintf("stored into %s", exprString(l)), v.Pos()
+						case *ast.Ident:
+							// a local alias: track it too
+							if id := unparen(l).(*ast.Ident); id.Name != "_" {
+								lo := info.Defs[id]
+								if lo == nil {
+									lo = info.Uses[id]
+								}
+								if lo != nil && lo != o {
+									if _, seen := peeked[lo]; !seen {
+										// aliases are checked as views of the same window
+										peeked[lo] = v.Pos()
+									}
+								}
+							}
+						}
+					}
+				case *ast.ReturnStmt:
+					for _, r := range v.Results {
+						if isView(r) == o {
+							bad, badPos = "returned to the caller", v.Pos()
+						}
+					}
+				case *ast.CompositeLit:
+					for _, el := range v.Elts {
+						e := el
+						if kv, ok := el.(*ast.KeyValueExpr); ok {
+							e = kv.Value
+						}
+						if isView(e) == o {
+							bad, badPos = "placed in a composite literal", v.Pos()
+						}
+					}
+				}
+				return true
+			})
+			if bad == "" {
+				out = append(out, okOb("PEEKRETAIN", key, c.Rel(pos), "the peeked bytes are consumed (copied or decoded), not kept", true))
+			} else {
+				out = append(out, violOb("PEEKRETAIN", key, c.Rel(badPos), fmt.Sprintf("%s keeps the bytes returned by Peek (%s, %s): they are a window into the reader's buffer and are overwritten by the next read, so the decoded object changes under its owner (a second object read from the same stream, or a reused input slice, rewrites it)", fkey, bad, c.Rel(badPos))))
+			}
+		}
+	})
+	c.Stats["peek_sites"] = n
+	return out
+}
+
+func init() {
+	core.Register(&core.Rule{Name: "PEEKRETAIN", Props: []string{"C08"},
+		Doc: "the bytes returned by a reader's Peek are copied or decoded, never stored in a field, placed in a literal, converted to a retained array pointer or returned",
+		Run: func(c *core.Ctx) []ob {
+			out := scanPeekRetain(c)
+			out = append(out, core.Floor("PEEKRETAIN", nil, "Peek sites", c.Stats["peek_sites"], 8)...)
+			out = append(out, control(c, "PEEKRETAIN", scanPeekRetain, "(Thing).readSeed")...)
 			return out
 		}})
 }
